@@ -86,8 +86,11 @@ package protocol
 //@   ensures d.reader.$rpos == old(d.reader.$rpos) + result0
 //@   ensures old(d.err) != nil ==> result0 == 0 && result1 == old(d.err)
 
+// The error is recorded BEFORE the rest of the frame is discarded: discard reports its own failure (a frame that announces
+// more bytes than the stream holds) through setError, and the recorded error is what ends that mutual recursion.
 //@ func (*decoder).setError
 //@   requires 0 <= d.remain && d.remain <= 0x7fffffff
+//@   callsite (*decoder).discardAll requires d.err != nil
 //@   modifies d.remain, d.err, d.crc32, region($rpos)
 //@   ensures d.remain >= 0 && d.remain <= old(d.remain) && d.reader.$rpos - old(d.reader.$rpos) == old(d.remain) - d.remain
 //@   ensures old(d.err) != nil ==> d.err == old(d.err) && d.remain == old(d.remain)
@@ -336,6 +339,7 @@ package protocol
 //@   option timeout 240
 //@   loop 0 unroll 3
 
+//@ property C05 C04
 // v1 wrapper with relative inner offsets (Kafka message-set documentation): the wrapper's own offset is the absolute offset
 // of its LAST inner message, the inner messages carry relative offsets 0..n-1; every inner offset is rewritten to
 // wrapperOffset - (n-1 - relative). Same rule as extractOffset on the Conn/Reader path (base = wrapper - last relative).
